@@ -251,8 +251,13 @@ def gen_cfg(rng, cls, big):
             cfg["spread_form"], cfg["spread"] = "array", [float(v) for v in np.round(rng.uniform(0.2, 6.0, size=n), 4)]
         else:
             cfg["spread_form"], cfg["spread"] = "array_col", [float(v) for v in np.round(rng.uniform(0.2, 6.0, size=n), 4)]
-    if rng.random() < 0.4:
+    u = rng.random()
+    if u < 0.4:
         cfg["weights"] = [float(v) for v in np.round(rng.uniform(0.3, 3.0, size=n), 3)]
+    elif u < 0.52:      # the same weight for every observation (a constant, not 1)
+        cfg["weights"] = [float([0.5, 2.0, 3.0, 0.25][int(rng.integers(0, 4))])] * n
+    if rng.random() < 0.06:     # predictions many orders of magnitude below the data (early iterations of a fit, tiny concentrations)
+        cfg["yhat"] = [float(v) * float(10.0 ** -int(rng.integers(9, 15))) for v in cfg["yhat"]]
     return cfg
 
 
